@@ -73,19 +73,35 @@ class Project:
             txt = txt[: mo.start()] + propval + txt[mo.end() :]
         return txt
 
-    def dfs(self, target_name, state):
-        state.add(target_name)
+    def dfs(self, target_name, stack, order):
+        """Visit a target depth first.
+
+        stack holds the targets on the path to this target (used to detect
+        loops), order receives each visited target after its dependencies.
+        """
+        stack.append(target_name)
         target = self.get_target(target_name)
         for dep in target.dependencies:
-            if dep in state:
+            if dep in stack:
                 raise TaskError(
                     f"Dependency loop detected {target_name} -> {dep}"
                 )
-            self.dfs(dep, state)
+            if dep not in order:
+                self.dfs(dep, stack, order)
+        stack.pop()
+        order.append(target_name)
+
+    def target_order(self, target_names):
+        """Give the named targets and all their dependencies, each target
+        once and after its dependencies. Raises TaskError on a loop."""
+        order = []
+        for target_name in target_names:
+            if target_name not in order:
+                self.dfs(target_name, [], order)
+        return order
 
     def check_target(self, target_name):
-        state = set()
-        self.dfs(target_name, state)
+        self.target_order([target_name])
 
     def dependencies(self, target_name):
         assert type(target_name) is str
@@ -200,21 +216,11 @@ class TaskRunner:
             self.logger.info("No targets to run!")
             return
 
-        # Check for loops:
-        for target in target_list:
-            project.check_target(target)
-
-        # Calculate all dependencies:
-        # TODO: make this understandable:
-        target_list = set.union(
-            *[project.dependencies(t) for t in target_list]
-        ).union(set(target_list))
-
-        # Lookup actual targets:
+        # Check for loops and put all dependencies in run order:
         target_list = [
-            project.get_target(target_name) for target_name in target_list
+            project.get_target(target_name)
+            for target_name in project.target_order(target_list)
         ]
-        target_list.sort()
 
         self.logger.info(f"Target sequence: {target_list}")
 
